@@ -136,3 +136,29 @@ V('ps1-shared-table', ['C17'], 'yalafi/parameters.py',
   "            lang_change_repl = LANG_CHANGE,\n            lang_change_repl_vowel = None,\n            short_macros = {}\n        )\n        settings['de']", [])
 V('ps2-global-counter', ['C17'], 'yalafi/utils.py',
   "def latex_error(err, pos, latex, parms):\n", "error_count = 0\ndef latex_error(err, pos, latex, parms):\n    global error_count\n    error_count += 1\n", 'PS2')
+
+# ---------------------------------------------------------------- TH
+GH = 'yalafi/shell/genhtml.py'
+V('th1-drop-escape-gap', ['C16'], GH,
+  "res += protect_html(tex[last:h.beg])", "res += tex[last:h.beg]", 'TH1')
+V('th1-drop-escape-msg', ['C16'], GH,
+  "msg = protect_html(json_get(m, 'message', str)) + '\\n'",
+  "msg = json_get(m, 'message', str) + '\\n'", 'TH1')
+V('th1-double-escape', ['C16'], GH,
+  "    s = protect_html(s)\n    post = end_href + end_match()",
+  "    s = protect_html(protect_html(s))\n    post = end_href + end_match()", 'TH1')
+V('th1-amp-last', ['C16'], GH,
+  "    s = re.sub(r'&', r'&amp;', s)\n    s = re.sub(r'\"', r'&quot;', s)\n",
+  "    s = re.sub(r'\"', r'&quot;', s)\n    s = re.sub(r'&', r'&amp;', s)\n", 'TH1')
+V('th1-no-quote', ['C16'], GH,
+  "    s = re.sub(r'\"', r'&quot;', s)\n", "", 'TH1')
+V('th1-neutral-local', ['C16'], GH,
+  "res += protect_html(tex[last:h.beg])", "piece = tex[last:h.beg]\n            res += protect_html(piece)", [])
+V('th2-cursor-overlap', ['C16'], GH,
+  "                overlaps.append((s, h.lin + 1))\n                continue\n",
+  "                overlaps.append((s, h.lin + 1))\n                last = h.end\n                continue\n", 'TH2')
+V('th2-cursor-beg', ['C16'], GH,
+  "            last = h.end\n", "            last = h.beg\n", 'TH2')
+V('th2-drop-overlap', ['C16'], GH,
+  "                overlaps.append((s, h.lin + 1))\n                continue\n",
+  "                continue\n", 'TH2')
